@@ -229,6 +229,10 @@ impl BitOps {
     pub fn zero_high_bits32(&self, source: u32, index: u32) -> u32 {
         #[cfg(target_arch = "x86_64")]
         if self.config.enable_bmi2 && self.features.has_bmi2 {
+            // BZHI only reads the low 8 bits of the index
+            if index >= 32 {
+                return source;
+            }
             unsafe {
                 _bzhi_u32(source, index)
             }
@@ -258,6 +262,10 @@ impl BitOps {
     pub fn zero_high_bits64(&self, source: u64, index: u32) -> u64 {
         #[cfg(target_arch = "x86_64")]
         if self.config.enable_bmi2 && self.features.has_bmi2 {
+            // BZHI only reads the low 8 bits of the index
+            if index >= 64 {
+                return source;
+            }
             unsafe {
                 _bzhi_u64(source, index)
             }
